@@ -340,6 +340,16 @@ wav_read_header	(SF_PRIVATE *psf, int *blockalign, int *framesperblock)
 
 		psf_store_read_chunk_u32 (&psf->rchunks, marker, psf_ftell (psf), chunk_size) ;
 
+		/*
+		** psf_binheader_readf takes the number of bytes to skip as an int : a size
+		** of 2G or more would turn into a step backwards (and when the file length
+		** is not known nothing else stops the parser from going round in circles).
+		*/
+		if (chunk_size > 0x7fffffff && marker != RIFF_MARKER && marker != RIFX_MARKER && marker != data_MARKER)
+		{	psf_log_printf (psf, "*** %M : chunk size %u is too big. Exiting parser.\n", marker, chunk_size) ;
+			break ;
+			} ;
+
 		switch (marker)
 		{	case RIFF_MARKER :
 			case RIFX_MARKER :
